@@ -352,3 +352,16 @@ PROPS["C09"] = {
     "units": {"anchors": {"pkg": "./middleware/resolver", "run": "^TestVerifC09Anchors$", "tiers": {"quick": T(1500, 8, timeout=900), "thorough": T(50000, 12, timeout=3400)},
                           "floors": {"C09.anchors": {"revocation-accepted": 0.1, "crash-then-restart": 0.05, "store-damaged": 0.02, "revocation-only-refresh": 0.03, "unauthenticated-refresh": 0.2, "restart": 0.2, "writefail": 0.05, "fail-closed": 0.03}}}},
 }
+
+PROPS["C10"] = {
+    "level": "exploration",
+    "technique": "socket-level property testing with self-identifying questions and answers: the real UDP batch engine and TCP stream listeners on loopback in front of a stub whose answer is a function of the question, many concurrent client sockets with generated windows, every received datagram / frame matched against that client's own outstanding questions; repeated under the race detector",
+    "level_text": ("The real listeners (UDP batch engine with inline fast path, 1-4 workers, send bursts; TCP stream with reply staging) serve the default chain over a stub resolver that answers a TXT RRset spelling the question name ('big' names produce ~9.5 KB answers, 'drop' names no reply, 'panic' names a panic inside the handler, 'slow' names a short delay). "
+                   "4-24 UDP client sockets keep windows of 1-16 questions in flight, 40-300 each, cycling through cached names (answered inline on the reader) and uncached names (handed to workers), so that inline hits and worker sends from different clients overlap on the same socket; 0-4 TCP clients write pipelined bursts of 3-7 cached small and oversized (beyond the 8 KiB staging buffer) and uncached questions in one write. "
+                   "Oracle: every datagram a client receives decodes, carries the ID and question of one of its own outstanding questions and exactly that question's answer (or the recovery SERVFAIL), is the only reply to it, and nothing arrives for a client with nothing outstanding; on TCP reply i of a burst answers query i, whole, in query order. The same unit runs under -race (shared send state shows as a data race even when no datagram is misdirected). Exploration."),
+    "level_note": "Trusted: the stub's answer function and the client-side matching. DoT, DoH and DoQ front ends are not driven (no TLS / QUIC client is set up); 'HTTP exchange or QUIC stream' provenance is therefore not decided. Scheduling is whatever the kernel and the Go scheduler produce: detection of interleaving bugs is probabilistic, which is why the case count, client count and the race build are part of the unit. UDP loss on loopback is counted, not judged.",
+    "rule": ("evaluations = socket sessions (one server lifetime each). Non-trivial = more than 50 UDP replies were matched, with inline hits and worker-handled misses in the same session; distinct = hash(parameters)."),
+    "units": {"sockets": {"pkg": "./server", "run": "^TestVerifC10Sockets$", "tiers": {"quick": T(12, 4, timeout=900), "thorough": T(300, 6, timeout=3400)},
+                          "floors": {"C10.sockets": {"inline-hits-and-worker-misses-together": 0.8, "tcp-pipelined-bursts": 0.5}}},
+              "sockets-race": {"pkg": "./server", "run": "^TestVerifC10Sockets$", "race": True, "tiers": {"quick": T(4, 2, timeout=900), "thorough": T(60, 4, timeout=3400)}}},
+}
